@@ -83,7 +83,13 @@ pub fn run(args: &Args) {
             _ => ("@".to_string(), fixed_doc.as_bytes().to_vec()),
         };
         // input variants
-        let input: Vec<u8> = match rng.below(26) {
+        let expr_text = if rng.chance(1, 25) { format!("{}{}", expr_text, ["\u{B}", "\u{A0}", "\u{2028}", "\u{3000}", "\u{85}"][rng.below(5)]) } else { expr_text };
+        const EXOTIC_BLANKS: [&str; 10] = ["\u{B}", "\u{C}", "\u{85}", "\u{A0}", "\u{2028}", "\u{2029}", "\u{3000}", "\u{FEFF}", "\u{200B}", "\u{1680}"];
+        let input: Vec<u8> = match rng.below(29) {
+            // characters Unicode calls white space, JSON and JMESPath do not
+            26 => format!("{}{}", String::from_utf8_lossy(&doc_text), EXOTIC_BLANKS[rng.below(10)]).into_bytes(),
+            27 => format!("{}{}", EXOTIC_BLANKS[rng.below(10)], String::from_utf8_lossy(&doc_text)).into_bytes(),
+            28 => format!("{}{}\n", String::from_utf8_lossy(&doc_text), EXOTIC_BLANKS[rng.below(10)]).into_bytes(),
             // bytes that are not UTF-8 *inside* a JSON string / key, where a lossy decoder
             // would quietly substitute U+FFFD and go on
             18 => b"{\"a\": \"x\xffy\", \"xs\": [1]}".to_vec(),
@@ -135,7 +141,11 @@ pub fn run(args: &Args) {
         if in_argv {
             argv.push(json!(expr_text));
         } else {
-            let (content, readable): (Vec<u8>, bool) = match rng.below(13) {
+            let (content, readable): (Vec<u8>, bool) = match rng.below(17) {
+                13 => (format!("{}{}", expr_text, EXOTIC_BLANKS[rng.below(10)]).into_bytes(), true),
+                14 => (format!("{}{}\n", expr_text, EXOTIC_BLANKS[rng.below(10)]).into_bytes(), true),
+                15 => (format!("{}{}", EXOTIC_BLANKS[rng.below(10)], expr_text).into_bytes(), true),
+                16 => (format!("{}\n{}\n", expr_text, EXOTIC_BLANKS[rng.below(10)]).into_bytes(), true),
                 0 => (format!("{}\n", expr_text).into_bytes(), true),
                 1 => (vec![0xc3, 0x28, b'a'], false),
                 2 => (vec![], true),
